@@ -271,3 +271,114 @@ Proof.
   - split; [exact Hlen'|]. split; [exact I'|]. split; [exact E'|].
     rewrite (l_abs_len _ len E'), (l_abs_len x len E), HL. now apply firstn_upd.
 Qed.
+
+(* ---------------------------------------------------------------- set_slice_mut: the two word kernels, all values *)
+Lemma valS_decode s v : v < two64 -> map (pv (rho_of (env2 s v))) valS = decode 32 v.
+Proof. intro H. unfold valS. rewrite decode_var. cbn [env2]. now rewrite N.mod_small by exact H. Qed.
+Lemma stoS64_decode w v : w < two64 -> map (pv (rho_of (env2 w v))) (stoS c64) = decode 32 w.
+Proof. intro H. apply (stoS_decode c64 w v c64_shipped). now apply wf64. Qed.
+
+Lemma l_word0_spec bp n is_last w value : w < two64 -> value < two64 -> (bp < 32)%nat -> (1 <= n <= 32)%nat ->
+  (is_last = true -> (bp + n <= 28)%nat) ->
+  exists r, run (k_l_word0 bp n is_last (Var 0 64) (Var 1 64)) w value = Some r /\ r < two64 /\
+    decode 32 r = splice bp (firstn (Nat.min n (32 - bp)) (decode 32 value)) (decode 32 w).
+Proof.
+  intros Hw Hv Hbp Hn Hlast. pose proof sweep_l_word0 as H. rewrite forallb_forall in H. specialize (H bp (in_seq32 bp Hbp)).
+  rewrite forallb_forall in H. specialize (H is_last ltac:(destruct is_last; cbn; auto)).
+  rewrite forallb_forall in H. specialize (H n).
+  assert (Hin : In n (runs0 bp is_last)).
+  { unfold runs0. destruct is_last; apply in_seq; [specialize (Hlast eq_refl)|]; lia. }
+  specialize (H Hin). unfold chk_l_word0 in H.
+  destruct (lane_check_lift c64 64 _ _ w value H (proj1 (wf64 w) Hw) Hv) as [r [Hr [Hwf Hd]]].
+  exists r. split; [exact Hr|]. split; [now apply wf64|].
+  change (kK c64) with 32%nat in Hd. rewrite Hd, splice_map, <- firstn_map, valS_decode, stoS64_decode by assumption. reflexivity.
+Qed.
+
+Lemma l_word1_spec nb0 nb1 w value : w < two64 -> value < two64 -> (1 <= nb0)%nat -> (1 <= nb1)%nat -> (nb0 + nb1 <= 32)%nat ->
+  exists r, run (k_l_word1 nb0 nb1 (Var 0 64) (Var 1 64)) w value = Some r /\ r < two64 /\
+    decode 32 r = splice 0 (firstn nb1 (skipn nb0 (decode 32 value))) (decode 32 w).
+Proof.
+  intros Hw Hv H0 H1 H01. pose proof sweep_l_word1 as H. rewrite forallb_forall in H.
+  specialize (H nb0 ltac:(apply in_seq; lia)). rewrite forallb_forall in H. specialize (H nb1 ltac:(apply in_seq; lia)).
+  unfold chk_l_word1 in H.
+  destruct (lane_check_lift c64 64 _ _ w value H (proj1 (wf64 w) Hw) Hv) as [r [Hr [Hwf Hd]]].
+  exists r. split; [exact Hr|]. split; [now apply wf64|].
+  change (kK c64) with 32%nat in Hd.
+  rewrite Hd, splice_map, <- firstn_map, <- skipn_map, valS_decode, stoS64_decode by assumption. reflexivity.
+Qed.
+
+(* writing a run inside block b of a block vector *)
+Lemma upd_nth_same {A} b (ws : list A) d : (b < length ws)%nat -> upd b ws (nth b ws d) = ws.
+Proof.
+  intro H. unfold upd. rewrite <- (skipn_S_nth b ws d H). apply firstn_skipn.
+Qed.
+Lemma lanes_of_upd_splice ws b o r w' : (b < length ws)%nat -> (o + length r <= 32)%nat ->
+  decode 32 w' = splice o r (decode 32 (nth b ws 0)) ->
+  lanes_of (upd b ws w') = splice (32 * b + o) r (lanes_of ws).
+Proof.
+  intros Hb Ho Hd. rewrite lanes_of_upd by exact Hb. rewrite Hd.
+  set (A := firstn (32 * b) (lanes_of ws)). set (C := skipn (32 * S b) (lanes_of ws)). set (M := decode 32 (nth b ws 0)).
+  assert (HL : lanes_of ws = A ++ M ++ C).
+  { rewrite <- (upd_nth_same b ws 0 Hb) at 1. now rewrite lanes_of_upd by exact Hb. }
+  assert (HA : length A = (32 * b)%nat) by (subst A; rewrite firstn_length, lanes_of_length; lia).
+  rewrite HL, <- HA. rewrite splice_app_l. rewrite splice_app_r by (subst M; rewrite decode_length; lia). reflexivity.
+Qed.
+
+Lemma l_set_slice_mut_lanes x pos n value : (1 <= l_size x)%nat -> Forall (fun w => w < two64) x ->
+  (1 <= n <= 32)%nat -> (pos + n <= 32 * l_size x - 4)%nat -> value < two64 ->
+  exists x', l_set_slice_mut x pos n value = Some x' /\ length x' = length x /\ Forall (fun w => w < two64) x' /\
+    lanes_of x' = splice pos (firstn n (decode 32 value)) (lanes_of x).
+Proof.
+  intros Hs Hw Hn Hp Hv. unfold l_size in *. unfold l_set_slice_mut, l_size, subn.
+  destruct (Nat.leb_spec 1 (length x)) as [_|?]; [|lia]. cbn [obind].
+  set (b0 := (pos / 32)%nat). set (bp := (pos mod 32)%nat).
+  assert (Hb0 : (b0 < length x)%nat) by (subst b0; lia).
+  assert (Hbp : (bp < 32)%nat) by (subst bp; lia).
+  assert (Hpos : (pos = 32 * b0 + bp)%nat) by (subst b0 bp; lia).
+  rewrite (nth_opt_some _ _ 0 Hb0). cbn [obind].
+  assert (Hw0 : nth b0 x 0 < two64) by (rewrite Forall_forall in Hw; apply Hw; now apply nth_In).
+  destruct (l_word0_spec bp n (Nat.eqb b0 (length x - 1)) (nth b0 x 0) value Hw0 Hv Hbp Hn) as [v0 [E0 [W0 D0]]].
+  { intro E. apply Nat.eqb_eq in E. lia. }
+  rewrite E0. cbn [obind]. rewrite set_nth_some by exact Hb0. cbn [obind].
+  set (run := decode 32 value) in *.
+  assert (Hrl : length run = 32%nat) by (subst run; apply decode_length).
+  set (x1 := upd b0 x v0).
+  assert (Hl1 : length x1 = length x) by (subst x1; now apply upd_length).
+  assert (Hw1 : Forall (fun w => w < two64) x1) by (subst x1; now apply Forall_upd).
+  assert (HL1 : lanes_of x1 = splice pos (firstn (Nat.min n (32 - bp)) run) (lanes_of x)).
+  { subst x1. rewrite Hpos. apply lanes_of_upd_splice; [exact Hb0 | rewrite firstn_length; lia | exact D0]. }
+  destruct (Nat.ltb_spec (32 - bp) n) as [Hcross|Hin].
+  - (* the run continues in the next word *)
+    assert (Hb1 : (S b0 < length x1)%nat) by lia.
+    rewrite (nth_opt_some _ _ 0 Hb1). cbn [obind].
+    assert (Hw1' : nth (S b0) x1 0 < two64) by (rewrite Forall_forall in Hw1; apply Hw1; now apply nth_In).
+    destruct (l_word1_spec (32 - bp) (n - (32 - bp)) (nth (S b0) x1 0) value Hw1' Hv) as [v1 [E1 [W1 D1]]]; try lia.
+    rewrite E1. cbn [obind]. rewrite set_nth_some by exact Hb1. eexists; split; [reflexivity|].
+    split; [rewrite upd_length by exact Hb1; exact Hl1|]. split; [now apply Forall_upd|].
+    fold run in D1.
+    rewrite (lanes_of_upd_splice x1 (S b0) 0 (firstn (n - (32 - bp)) (skipn (32 - bp) run)) v1 Hb1);
+      [| rewrite firstn_length; lia | exact D1].
+    rewrite HL1. replace (Nat.min n (32 - bp)) with (32 - bp)%nat by lia.
+    replace (32 * S b0 + 0)%nat with (pos + length (firstn (32 - bp) run))%nat by (rewrite firstn_length; lia).
+    rewrite splice_splice.
+    + rewrite firstn_firstn_skipn. do 2 f_equal. lia.
+    + rewrite !firstn_length, skipn_length, lanes_of_length. lia.
+  - eexists; split; [reflexivity|]. split; [exact Hl1|]. split; [exact Hw1|].
+    rewrite HL1. now replace (Nat.min n (32 - bp)) with n by lia.
+Qed.
+
+Theorem l_set_slice_mut_spec x len pos n value : l_inv x -> l_len x = Some len ->
+  (1 <= n <= 32)%nat -> (pos + n <= len)%nat -> value < two64 ->
+  exists x', l_set_slice_mut x pos n value = Some x' /\ l_size x' = l_size x /\ l_inv x' /\ l_len x' = Some len /\
+             l_abs x' = splice pos (firstn n (decode 32 value)) (l_abs x).
+Proof.
+  intros Hinv E Hn Hp Hv. pose proof Hinv as [Hs [Hw [len' [E' [Hmax _]]]]]. rewrite E in E'. injection E' as <-.
+  rewrite l_max_len_eq in Hmax.
+  destruct (l_set_slice_mut_lanes x pos n value) as [x' [Es [Hl [Hw' HL]]]]; try assumption; try lia.
+  assert (Hrl : length (firstn n (decode 32 value)) = n) by (rewrite firstn_length, decode_length; lia).
+  assert (HLl : (len <= length (lanes_of x))%nat) by (rewrite lanes_of_length; unfold l_size in *; lia).
+  destruct (l_inv_update x x' len Hinv E Hl Hw') as [I' E'].
+  - rewrite HL. apply skipn_splice; lia.
+  - exists x'. split; [exact Es|]. split; [exact Hl|]. split; [exact I'|]. split; [exact E'|].
+    rewrite (l_abs_len _ len E'), (l_abs_len x len E), HL. apply firstn_splice; lia.
+Qed.
